@@ -104,12 +104,39 @@ class Execution:
             def __exit__(self, *a):
                 self.release()
 
+        class RLock(Lock):
+            """re-entrant lock with an OWNER: only the owning thread may release it (threading.RLock semantics) - a lock
+            handed from one thread to another, as the reader-writer lock does with its gate locks, must not be one of these"""
+
+            def __init__(self):
+                Lock.__init__(self)
+                self.count = 0
+
+            def acquire(self, blocking=True, timeout=-1):
+                me = ex.me() if ex.me() is not None else "main"
+                if self.owner == me and self.count > 0:
+                    self.count += 1
+                    return True
+                Lock.acquire(self, blocking, timeout)
+                self.count = 1
+                return True
+
+            def release(self):
+                me = ex.me() if ex.me() is not None else "main"
+                if self.owner != me or self.count == 0:
+                    raise RuntimeError("cannot release un-acquired lock")
+                self.count -= 1
+                if self.count == 0:
+                    Lock.release(self)
+
+            __enter__ = acquire
+
         class NS:
             pass
 
         ns = NS()
         ns.Lock = Lock
-        ns.RLock = Lock
+        ns.RLock = RLock
         ns.get_ident = real_threading.get_ident
         ns.current_thread = real_threading.current_thread
         return ns
